@@ -1165,7 +1165,7 @@ def check_program(item):
 # lattice of the other objects meanwhile; aux_n: quantiles of every other continuous draw
 PARAMS = {
     "quick": dict(N2=16, N3=8, N_pair=8, N_partner=2, aux_n=2, sampler_cap=200000, max_evals=60000),
-    "thorough": dict(N2=40, N3=16, N_pair=16, N_partner=3, aux_n=3, sampler_cap=400000, max_evals=600000),
+    "thorough": dict(N2=40, N3=16, N_pair=10, N_partner=3, aux_n=3, sampler_cap=400000, max_evals=600000),
 }
 
 
@@ -1191,6 +1191,7 @@ def run(ctx):
     samples = []
     slow = []
     notes = {}
+    infeasible_ids = []
     for r in ctx.pmap(_run_item, items, chunksize=1):
         if "harness_error" in r:
             raise HarnessError(r["harness_error"])
@@ -1201,6 +1202,8 @@ def run(ctx):
             dist_fired += 1
         shrunk += 1 if r["shrunk"] else 0
         feasible_programs += 1 if r["feasible"] else 0
+        if not r["feasible"]:
+            infeasible_ids.append(r["id"])
         judged += r["judged"]
         evals += r["evals"]
         if r["capped"]:
@@ -1233,6 +1236,7 @@ def run(ctx):
         programs=len(specs),
         programs_by_family=fam,
         programs_with_accepted_scene=feasible_programs,
+        programs_without_accepted_scene=sorted(infeasible_ids)[:40],
         programs_where_pruning_shrank_region=shrunk,
         pruning_fired=dict(stage_fired, distance_bound=dist_fired),
         base_points_judged=judged,
